@@ -1,5 +1,46 @@
-import ShexerModel.Rdf
-/-! C07 — placeholder until the Turtle reader model is integrated. -/
+import ShexerModel.Lemmas.TtlLemmas
+/-! # C07 — the streaming Turtle reader yields exactly the triples of the document
+
+`Model/Ttl.lean` is `BigTtlTriplesYielder`: line cleaning and comment stripping, the tokenizer, the subject / predicate /
+object state machine that persists across lines, prefix and base handling, the final classification.
+`Spec/TtlGrammar.lean` is the reader's dialect as data: statement groups (`s p o (, o)* (; p o …)* .`) whose terms are
+written as `<absolute>`, `<relative>`, `pre:local`, `a`, `_:label`, `"…"`, `"…"@tag`, `"…"^^<iri>`, `"…"^^pre:local` or
+an untyped integer; their token stream is cut into physical lines at **arbitrary** token boundaries, every token
+preceded by an arbitrary run of blanks (space, tab, CR), lines may end in blanks and a comment, empty lines and
+whole-line comments may be interleaved.
+
+* `reads_the_body` — for every such layout the reader yields exactly the triples a standard parser assigns (same node
+  kinds, IRIs after prefix / base expansion, blank-node labels, literal datatypes), in document order, raises nothing,
+  and is back in the state that waits for a subject with the same prefixes and base — for unboundedly many groups,
+  lines, blanks, and arbitrary literal content without tab / CR / double blank (`contentOk`; the reader normalises blank
+  runs *inside* literals, which changes the lexical form but not the datatype — that part is covered by the
+  correspondence check only);
+* `resolve` stands for `urllib.parse.urljoin`; the hypotheses used about it are stated in the grammar (`ResolveOk`,
+  absolute references are fixed points).
+
+Outside the dialect the reader must raise rather than yield other triples: that clause is decided by the search (15
+families of documents), and by the correspondence, which compares exception classes too. -/
 namespace Shexer.C07
-theorem placeholder : True := trivial
+open Shexer Ttl TtlGrammar
+
+theorem reads_the_body (resolve : List Char → List Char → List Char) (ctx : Ctx) (hctx : ctxOk ctx)
+    (groups : List Group) (hg : ∀ g ∈ groups, g.Valid resolve ctx)
+    (lines : List Line) (hl : ∀ ln ∈ lines, ln.Valid)
+    (hpart : lines.flatMap (fun ln => ln.toks.map (·.2)) = groups.flatMap Group.toks)
+    (st : St) (hctx' : st.ctx = ctx) (hw : st.wait = .subj) :
+    ∃ st', runBody resolve st (lines.map Line.chars) = .ok (st', groups.flatMap (Group.triples resolve ctx)) ∧
+      st'.ctx = ctx ∧ st'.wait = .subj :=
+  body_reads resolve ctx hctx groups hg lines hl hpart st hctx' hw
+
+/-- a directive line sets the prefix it declares (and nothing else) -/
+example : (processLine simpleResolve {} "@prefix ex: <http://e.org/> .".toList).toOption.map (fun r => r.1.ctx.prefixes)
+    = some [("ex".toList, "http://e.org/".toList)] := by decide +kernel
+
+/-- a subject alone on its line, punctuation on its own line, a comment with quotes, a literal with ' #' and ';' inside -/
+example : ((runBody simpleResolve { ctx := { prefixes := [("ex".toList, "http://e.org/".toList)] } }
+      ["ex:s".toList, "\ta  <http://o.org/C> # c \"q\" ; .".toList, ";".toList, "ex:p \"a #\\\";\"@en , 42".toList, " .".toList]).toOption.map (·.2))
+    = some [⟨.iri "http://e.org/s", "http://www.w3.org/1999/02/22-rdf-syntax-ns#type", .iri "http://o.org/C"⟩,
+            ⟨.iri "http://e.org/s", "http://e.org/p", .lit "http://www.w3.org/1999/02/22-rdf-syntax-ns#langString"⟩,
+            ⟨.iri "http://e.org/s", "http://e.org/p", .lit "http://www.w3.org/2001/XMLSchema#integer"⟩] := by decide +kernel
+
 end Shexer.C07
